@@ -29,6 +29,9 @@ type Engine struct {
 	Trace              bool
 	TraceOut           io.Writer
 	NoPropagator       bool
+	NoTabulate         bool
+	MaxSplit           int
+	Progress           int
 	SMTTrace           string
 	runtimeErrorString types.Type
 
@@ -204,6 +207,10 @@ type Worker struct {
 	tables    map[*value]*Table
 	nextTable int
 	nvar      int
+	inHeavy   bool
+	heavyCache map[tkey]*Term
+	tableBySig map[string]*Table
+	tabulated int
 
 	// scheduler state (sched.go)
 	sched *scheduler
@@ -224,6 +231,7 @@ func NewEngine(prog *ssa.Program) *Engine {
 	e := &Engine{
 		Prog:          prog,
 		MaxSteps:      5_000_000,
+		MaxSplit:      4096,
 		SolverBin:     "z3",
 		TimeoutMs:     10_000,
 		HardTimeoutMs: 120_000,
@@ -391,7 +399,162 @@ func (e *Engine) newWorker(id int) (*Worker, error) {
 			sol.Trace = f
 		}
 	}
-	return &Worker{eng: e, id: id, tb: NewTB(), sol: sol}, nil
+	w := &Worker{eng: e, id: id, tb: NewTB(), sol: sol}
+	if !e.NoTabulate {
+		w.tb.Heavy = w.heavy
+	}
+	return w, nil
+}
+
+// heavy is the term builder's hook for wide mul/div/rem nodes.  When the node
+// depends only on variables with small tracked domains it is replaced by an
+// exact lookup table over one variable: the other variables are case-split
+// (forking the path), the node is evaluated with the engine's exact evaluator
+// for every value of the remaining variable, and the solver sees a table
+// instead of a 64-bit multiplier/divider.
+func (w *Worker) heavy(op Op, a, b *Term) *Term {
+	if w.inHeavy || w.js == nil {
+		return nil
+	}
+	hk := tkey{op: op, a: a, b: b}
+	if r, ok := w.heavyCache[hk]; ok {
+		return r
+	}
+	// narrow results are cheap for the solver
+	ia, ib := w.tb.IV(a), w.tb.IV(b)
+	if op == OpMul && ia.uhi <= 0xffff && ib.uhi <= 0xffff && ia.uhi*ib.uhi <= 0xffff {
+		return nil
+	}
+	vars := w.varsOf(a)
+	for _, v := range w.varsOf(b) {
+		dup := false
+		for _, x := range vars {
+			if x == v {
+				dup = true
+			}
+		}
+		if !dup {
+			vars = append(vars, v)
+		}
+	}
+	if len(vars) == 0 {
+		return nil
+	}
+	prod := 1
+	var keep *Term
+	for _, v := range vars {
+		d := w.dom[v]
+		if d == nil || d.n > 4096 {
+			return nil
+		}
+		if d.count > 1 {
+			prod *= d.count
+			if prod > w.eng.MaxSplit*4096 {
+				return nil
+			}
+		}
+		if keep == nil || d.count > w.dom[keep].count {
+			keep = v
+		}
+	}
+	forks := prod / w.dom[keep].count
+	if forks > w.eng.MaxSplit {
+		return nil
+	}
+	if forks > 1 && a.w < 32 {
+		return nil // narrow nodes are only tabulated, never case-split
+	}
+	w.inHeavy = true
+	defer func() { w.inHeavy = false }()
+	tb := w.tb
+	split := false
+	for _, v := range vars {
+		if v == keep {
+			continue
+		}
+		d := w.dom[v]
+		if d.count <= 1 {
+			continue
+		}
+		split = true
+		// case split over the values still allowed
+		done := false
+		for i := 0; i < d.n && !done; i++ {
+			if !d.has(i) {
+				continue
+			}
+			val := uint64(d.lo+int64(i)) & mask(v.w)
+			if w.branch(tb.Cmp(OpEq, v, K(v.w, val))) {
+				done = true
+			}
+		}
+		if !done {
+			panic(pathEnd{"infeasible"})
+		}
+	}
+	if split {
+		memo := map[*Term]*Term{}
+		a, b = tb.Rebuild(a, memo), tb.Rebuild(b, memo)
+		w.inHeavy = false
+		return tb.Bin(op, a, b)
+	}
+	// single variable: tabulate over its whole declared range
+	d := w.dom[keep]
+	if d.count <= 1 {
+		return nil
+	}
+	vals := make([]uint64, d.n)
+	env := &evalEnv{vals: map[*Term]uint64{}, memo: map[*Term]uint64{}}
+	for i := 0; i < d.n; i++ {
+		env.vals[keep] = uint64(d.lo+int64(i)) & mask(keep.w)
+		for k := range env.memo {
+			delete(env.memo, k)
+		}
+		x, y := env.eval(a), env.eval(b)
+		if (op == OpUDiv || op == OpURem || op == OpSDiv || op == OpSRem) && y == 0 {
+			return nil
+		}
+		vals[i], _ = evalBin(op, a.w, x, y)
+	}
+	// entries outside the current domain are infeasible on this path (the domain
+	// only shrinks): make them repeat a neighbour so that the table compresses
+	first := -1
+	for i := 0; i < d.n; i++ {
+		if d.has(i) {
+			first = i
+			break
+		}
+	}
+	last := vals[first]
+	for i := 0; i < d.n; i++ {
+		if d.has(i) {
+			last = vals[i]
+		} else {
+			vals[i] = last
+		}
+	}
+	var sig strings.Builder
+	fmt.Fprintf(&sig, "%d:%d:", a.w, keep.id)
+	for _, v := range vals {
+		fmt.Fprintf(&sig, "%x,", v)
+	}
+	tbl, ok := w.tableBySig[sig.String()]
+	if !ok {
+		w.nextTable++
+		tbl = &Table{id: w.nextTable, w: a.w, vals: vals}
+		w.tableBySig[sig.String()] = tbl
+	}
+	var idx *Term
+	if keep.w == 8 && d.lo == 0 {
+		idx = tb.Zext(keep, 16)
+	} else {
+		idx = tb.Extract(tb.Bin(OpSub, keep, K(keep.w, uint64(d.lo))), 0, 16)
+	}
+	tb.fire("tabulate")
+	w.tabulated++
+	r := tb.TableLookup(tbl, idx)
+	w.heavyCache[hk] = r
+	return r
 }
 
 // InitFor initialises the packages needed by fn (single-threaded, before exploration).
@@ -444,6 +607,33 @@ func (e *Engine) Run(jobs []Job) ([]*JobResult, error) {
 	}
 	var wg sync.WaitGroup
 	errs := make(chan error, e.Workers)
+	stopProgress := make(chan struct{})
+	if e.Progress > 0 {
+		go func() {
+			tk := time.NewTicker(time.Duration(e.Progress) * time.Second)
+			defer tk.Stop()
+			for {
+				select {
+				case <-stopProgress:
+					return
+				case <-tk.C:
+					e.mu.Lock()
+					q, b := len(e.stack), e.busy
+					e.mu.Unlock()
+					var sb strings.Builder
+					for _, js := range states {
+						js.mu.Lock()
+						if js.pending > 0 || js.res.Paths > 0 {
+							fmt.Fprintf(&sb, " [%s: %d paths, %d pending, %.0fs solver]", js.job.ID, js.res.Paths, js.pending, js.res.SolverSeconds)
+						}
+						js.mu.Unlock()
+					}
+					fmt.Fprintf(os.Stderr, "progress: queue=%d busy=%d%s\n", q, b, sb.String())
+				}
+			}
+		}()
+	}
+	defer close(stopProgress)
 	for i := 0; i < e.Workers; i++ {
 		w, err := e.newWorker(i)
 		if err != nil {
@@ -538,6 +728,8 @@ func (w *Worker) resetPath(it workItem) {
 	w.usedSolver = false
 	w.mapOrderNondet = false
 	w.tables = map[*value]*Table{}
+	w.heavyCache = map[tkey]*Term{}
+	w.tableBySig = map[string]*Table{}
 	w.nextTable = 0
 	w.nvar = 0
 	w.tb.Reset()
@@ -1126,9 +1318,8 @@ func (w *Worker) assertT(fr *frame, c *Term, id string) {
 		d := w.prefix[w.pos]
 		w.pos++
 		w.decisions = append(w.decisions, d)
-		if d == 1 {
-			w.addPC(c)
-		}
+		// proven (2) or assumed (1): either way c holds from here on
+		w.addPC(c)
 		return
 	}
 	w.aChecks++
@@ -1160,6 +1351,7 @@ func (w *Worker) assertT(fr *frame, c *Term, id string) {
 	case Unsat:
 		w.aUnsat++
 		w.decisions = append(w.decisions, 2)
+		w.addPC(c) // a proven assertion is a lemma for the rest of the path
 		return
 	case Sat:
 		w.aSat++
